@@ -345,6 +345,24 @@ def _oracle_history(cfg, ops, out):
                     raise Fail("harness", "reallocate of unknown region [%d,+%d)" % (oa, ol))
                 if kv.get("pat") != "ok":
                     raise Fail("pattern", "reallocate [%d,+%d) -> [%d,+%d) did not preserve the bytes" % (oa, ol, na, nl))
+                # the bytes the allocator moved (arguments of its pool.copy call): read only what the caller held, write only
+                # into the new region, and carry min(old, new) bytes when the region moved
+                cp = kv.get("cp")
+                if cp is not None:
+                    keep = min(ol, nl)
+                    if cp == "-":
+                        if na != oa and keep:
+                            raise Fail("realloc-copy", "reallocate moved [%d,+%d) to %d without copying" % (oa, ol, na))
+                    elif cp == "multi":
+                        raise Fail("realloc-copy", "reallocate [%d,+%d) copied more than once" % (oa, ol))
+                    else:
+                        cf, cn, ct = (int(x) for x in cp.split(","))
+                        if cn and (cf < oa or cf + cn > oa + ol):
+                            raise Fail("realloc-copy", "reallocate [%d,+%d) -> [%d,+%d) copies %d bytes from %d: reads outside the old region" % (oa, ol, na, nl, cn, cf))
+                        if cn and (ct < na or ct + cn > na + nl):
+                            raise Fail("realloc-copy", "reallocate [%d,+%d) -> [%d,+%d) copies %d bytes to %d: writes outside the new region" % (oa, ol, na, nl, cn, ct))
+                        if na != oa and (cf != oa or ct != na or cn < keep):
+                            raise Fail("realloc-copy", "reallocate [%d,+%d) -> [%d,+%d) copies %d bytes %d -> %d: not the first %d bytes of the region" % (oa, ol, na, nl, cn, cf, ct, keep))
                 del sh.live[oa]
                 if nl:
                     if roundup(req, cfg.bsz) > ol:
